@@ -466,6 +466,16 @@ def mut_st():
         st.tuples(st.just("rec_type"), st.integers(0, 60), st.integers(0, 60), st.sampled_from(ALL_ATTRS)),
         st.tuples(st.just("rec_len"), st.integers(0, 60), st.integers(0, 60), u64),
         st.tuples(st.just("rec_swap"), st.integers(0, 60), st.integers(0, 60), st.integers(0, 60)),
+        # SQLite backend, structure-aware (through SQL): attribute rows get boundary integers, mutated blobs (attribute maps and mechanism sets
+        # are serialised with native-endian length fields), another attribute type, NULL, or move to the table of another kind
+        st.tuples(st.just("sql_blob"), st.sampled_from(["attribute_array", "attribute_array", "attribute_binary"]), st.integers(0, 80),
+                  st.sampled_from(["set8", "set8", "set8", "trunc", "flip", "append", "empty"]), st.integers(0, 200), u64),
+        st.tuples(st.just("sql_int"), st.sampled_from(["attribute_integer", "attribute_boolean"]), st.integers(0, 80), st.sampled_from([0, 1, 2, -1, 255, 1 << 31, (1 << 63) - 1, -(1 << 63)])),
+        st.tuples(st.just("sql_type"), st.sampled_from(["attribute_array", "attribute_binary", "attribute_integer", "attribute_boolean"]), st.integers(0, 80), st.sampled_from(ALL_ATTRS)),
+        st.tuples(st.just("sql_null"), st.sampled_from(["attribute_array", "attribute_binary", "attribute_integer", "attribute_boolean"]), st.integers(0, 80)),
+        st.tuples(st.just("sql_move"), st.sampled_from(["attribute_array", "attribute_binary", "attribute_integer", "attribute_boolean"]),
+                  st.sampled_from(["attribute_array", "attribute_binary", "attribute_integer", "attribute_boolean", "attribute_text", "attribute_real"]), st.integers(0, 80)),
+        st.tuples(st.just("sql_delete"), st.sampled_from(["attribute_array", "attribute_binary", "attribute_integer", "attribute_boolean", "object"]), st.integers(0, 80)),
     ).map(list)
 
 
@@ -1201,9 +1211,59 @@ class C17(Check):
         finally:
             sb.remove()
 
+    def apply_sql(self, db, m):
+        import sqlite3
+        con = sqlite3.connect(db)
+        try:
+            how, table = m[0], m[1]
+            ids = [r[0] for r in con.execute("select id from %s order by id" % table)]
+            if not ids:
+                return 0
+            if how == "sql_move":
+                rid = ids[m[3] % len(ids)]
+                row = con.execute("select value, type, object_id from %s where id=?" % table, (rid,)).fetchone()
+                con.execute("delete from %s where id=?" % table, (rid,))
+                con.execute("insert into %s (value, type, object_id) values (?,?,?)" % m[2], row)
+            else:
+                rid = ids[m[2] % len(ids)]
+                if how == "sql_blob":
+                    b = bytearray(con.execute("select value from %s where id=?" % table, (rid,)).fetchone()[0] or b"")
+                    op, pos, val = m[3], m[4], m[5]
+                    if op == "set8" and len(b) >= 8:
+                        off = pos % (len(b) - 7)          # any byte offset: the entries of these blobs are not 8-byte aligned
+                        b[off:off + 8] = int(val).to_bytes(8, "little")
+                    elif op == "trunc":
+                        b = b[:pos % (len(b) + 1)]
+                    elif op == "flip" and b:
+                        b[pos % len(b)] ^= 1 << (pos % 8)
+                    elif op == "append":
+                        b += int(val).to_bytes(8, "little")
+                    elif op == "empty":
+                        b = bytearray()
+                    con.execute("update %s set value=? where id=?" % table, (bytes(b), rid))
+                elif how == "sql_int":
+                    con.execute("update %s set value=? where id=?" % table, (m[3], rid))
+                elif how == "sql_type":
+                    con.execute("update %s set type=? where id=?" % table, (m[3], rid))
+                elif how == "sql_null":
+                    con.execute("update %s set value=NULL where id=?" % table, (rid,))
+                elif how == "sql_delete":
+                    con.execute("delete from %s where id=?" % table, (rid,))
+            con.commit()
+            return 1
+        except sqlite3.Error:
+            return 0
+        finally:
+            con.close()
+
     def apply_muts(self, target, muts):
         applied = 0
         for m in muts:
+            if m[0].startswith("sql_"):
+                db = os.path.join(target, "sqlite3.db")
+                if os.path.isfile(db):
+                    applied += self.apply_sql(db, m)
+                continue
             files = sorted(f for f in os.listdir(target))
             # object files and token.object first in the index space (lock files are empty and uninteresting)
             files = [f for f in files if not f.endswith(".lock")] + [f for f in files if f.endswith(".lock")]
